@@ -108,6 +108,7 @@ func (s *Sim) logf(f string, a ...any) {
 }
 
 func (s *Sim) violate(prop, rule, fp, detail string) {
+	fp += s.qTag
 	v := Violation{Prop: prop, Rule: rule, FP: fp, Detail: detail, OpID: s.curOp, Height: s.N.Height}
 	s.Viol = append(s.Viol, v)
 	s.logf("VIOLATION %s %s [%s] %s", prop, rule, fp, detail)
@@ -321,7 +322,25 @@ func (s *Sim) handleTx(t *PendingTx, m *txMeta, obs *TxObs, r *abci.ExecTxResult
 		// the harness made a downstream module panic: an aborted transaction is a legitimate outcome
 		s.Stats.Count("injected_panic_aborted_tx")
 	}
-	if obs.IsPanic() && kind == "recv" && !injectedPanic {
+	plainOnly := kind == "recv" && len(m.Pkts) > 0
+	for _, p := range m.Pkts {
+		if s.classify(p).ToOrbiter {
+			plainOnly = false
+		}
+	}
+	if obs.IsPanic() && kind == "recv" && plainOnly && !injectedPanic {
+		// no packet of this transaction is for the orbiter: the panic is the wrapped application's own (C14 speaks
+		// about the orbiter's handling; C07 demands that such a packet behaves exactly as without the middleware,
+		// which the twin worlds decide: with and without it the delivery must panic alike)
+		s.Stats.Count("panic_in_wrapped_application_for_plain_packet")
+		s.logf("note: tx of op %d aborted by a panic while delivering packets that are not for the orbiter: %.200s", m.OpID, oneLine(obs.Log))
+		for i, p := range m.Pkts {
+			if i < len(m.Shadow) && m.Shadow[i] != nil && m.Shadow[i].V["base"] != nil {
+				s.c07Differential(p, s.classify(p), m.Shadow[i], m.Shadow[i].V["base"])
+			}
+		}
+	}
+	if obs.IsPanic() && kind == "recv" && !injectedPanic && !plainOnly {
 		if os.Getenv("VERIF_STACK") != "" {
 			fmt.Println(obs.Log)
 		}
